@@ -8,6 +8,8 @@ import propcfg
 LEVEL = {
  "C03": ("Machine-checked theorems (induction over all annotated trees and all disclosure lists) that the modelled restore algorithm ends in exactly the view determined by the set of presented disclosures, and that stripping a view is the property's projection; tied to /repo by a differential run of Holder::verify, Verifier::verify and Holder::presentation against the extracted model on reference-issued tokens with adversarial lists. Proof is the right level: the quantifier ranges over every list an attacker can type.",
          "partial: theorem currently covers the pass loop for duplicate-free lists (duplicates and the post-pass checks are exercised by the correspondence run only); premises hash_inj and dec_enc idealise SHA-2 collision resistance and base64/JSON round-tripping"),
+ "C14": ("Machine-checked theorems about the Gallina model of Issuer::encode: it never panics for any claims object, any path strings, any decoy maximum and any random draws; an unresolvable path of each kind is an error at its step, and an error at any position of the list fails the whole call. Tied to /repo by a differential run in which the model must reproduce the produced token exactly from the read-back random choices, over valid markings (also only-nested ones), invalid path lists, decoy maxima in [-3,50] and repeated encode() calls.",
+         "partial: 'valid marking => Ok' is exercised by the correspondence run (theorem pending the port of the issuer fold proofs); the clock and RNG are oracles"),
  "C10": ("Machine-checked totality theorems (never Panic, for every string) about a Gallina model of the splitters that mirrors each Rust slice/index operation with a checked primitive; the model is tied to /repo by an exhaustive differential run over all strings on {a . ~} up to a length bound. Proof is the right level because panic-freedom is a universal statement over strings.",
          "partial: panics, aborts and non-termination inside serde_json, base64, jwt-rustcrypto and stack exhaustion are runtime behaviour of code the model treats as oracles"),
  "C12": ("Machine-checked rejection lemmas for each rule at the function that implements it (disclosure decoding, object step, structure check, _sd_alg parsing), for all inputs; tied to /repo by a differential run over reference-issued tokens with one seeded defect of 23 kinds at any nesting level and their defect-free twins.",
